@@ -485,7 +485,7 @@ class AccessMixin:
         if c is not None and self.pure and c.options.get("pure_result") is not None:
             from .api import Ctx
             return c.options["pure_result"](Ctx(self, fr, fi.qualname, node), args, kwargs)
-        if c is not None and not c.inline and fi.qualname != getattr(self, "top_qualname", None):
+        if c is not None and not c.inline:      # (a call of the function under verification itself is a recursive call: contract too)
             return self.apply_contract(c, fi, args, kwargs, fr, selfsv, node)
         if fi.is_generator and not getattr(self, "allow_generator_inline", False):
             return SV(None, Ty("generator"), ("generator", fi, args, kwargs, selfsv))
